@@ -216,6 +216,32 @@ func c09Run(c *mc.Ctx, b *c09Base, unit []byte, what string) {
 	if all && len(got) != len(accepted) {
 		c.Rep.Report("valid-table-not-delivered:"+b.Name, det(fmt.Sprintf("the reference decoder accepts all %d sections, %d data delivered (errors: %v)", len(accepted), len(got), errStrings(out.Errs))))
 	}
+	// (3) error, not silence: when everything in front of it is accepted and the first thing the reference rejects is a
+	// section of a deliverable kind that is cut short (its section_length reaches beyond the unit) or whose CRC_32 is
+	// wrong, the outcome is "an error" - the unit is flushed in mid-stream by the valid unit behind it, so the error has
+	// a call to be returned from (at the end of the stream it could only be logged)
+	if !all && out.EOF {
+		firstBad := -1
+		for i, s := range secs {
+			if s.Kind != "" && s.Complete && s.CRCOK {
+				continue
+			}
+			firstBad = i
+			break
+		}
+		// (kept to the case no reading of the bytes can dispute: pointer_field 0, the first section still carries its
+		// own table_id, and it is cut short)
+		if firstBad == 0 && unit[0] == 0 && secs[0].Kind != "" && !secs[0].Complete && len(secs[0].Bytes) >= 3 && secs[0].TableID == b.Secs[0][0] {
+			c.Ev.Class("reference-outcome-is-an-error", 1)
+			if len(out.Errs) == 0 {
+				why := "its CRC_32 is wrong"
+				if !secs[firstBad].Complete {
+					why = "its section_length reaches beyond the unit"
+				}
+				c.Rep.Report("rejected-section-passed-over-in-silence:"+b.Name, det(fmt.Sprintf("section %d of the unit is a %s that the reference decoder rejects (%s): the outcome is an error, NextData returned none (%d data delivered)", firstBad, secs[firstBad].Kind, why, len(got))))
+			}
+		}
+	}
 	if all {
 		c.Ev.Class("unit-still-valid", 1)
 	} else {
@@ -330,7 +356,7 @@ func checkC09(c *mc.Ctx) {
 			Bound: fmt.Sprintf("unit of %d bytes: every bit flip, every pair of bit flips (quick: units <= 64 bytes), every byte x 3 substitutions, bursts 2..32 bits (2 patterns), every truncation, extensions 1..8 x 4 fills", len(unit))})
 	}
 	c09Mux(c)
-	c.Ev.Require("unit-still-valid", "unit-rejected-by-reference", "mux-pmt-validated", "mux-pmt-too-large", "mux-pmt-retransmitted")
+	c.Ev.Require("unit-still-valid", "unit-rejected-by-reference", "reference-outcome-is-an-error", "mux-pmt-validated", "mux-pmt-too-large", "mux-pmt-retransmitted")
 }
 
 // c09Mux: sections the Muxer emits carry a correct section_length and CRC.
